@@ -1,6 +1,7 @@
 #![allow(missing_docs)]
 
 use std::io::Read;
+use std::num::NonZeroU32;
 use std::result::Result as StdResult;
 
 use bitstream_io::LE;
@@ -37,7 +38,15 @@ bitflags::bitflags! {
 
 impl AlphChunk {
     pub fn sanitize_image_data<R: Read>(&self, input: R, vp8x: &Vp8xChunk) -> StdResult<(), Error> {
-        let (width, height) = (vp8x.canvas_width(), vp8x.canvas_height());
+        self.sanitize_image_data_with_dimensions(input, vp8x.canvas_width(), vp8x.canvas_height())
+    }
+
+    pub fn sanitize_image_data_with_dimensions<R: Read>(
+        &self,
+        input: R,
+        width: NonZeroU32,
+        height: NonZeroU32,
+    ) -> StdResult<(), Error> {
         if self.flags.contains(AlphFlags::COMPRESS_LOSSLESS) {
             #[cfg(signalapp_mp4san_verif)]
             {
